@@ -12,6 +12,8 @@ Requests (first word = op):
     translate   n coords(3n) v(3)
     transform   n coords(3n) R(9)
     subedit     n coords(3n) k sel(k) R(9) t(3)            Substructure edit  p ↦ p@R + t  on rows `sel`
+    viewedit    n ids(n) coords(3n) k handle(k) R(9) t(3)  edit p ↦ p@R + t through a Substructure handle that holds atom
+                                                           identities `handle`; `ids` = the parent's atom list NOW
     centerat    n coords(3n) k core(k)
     rotdih      <shipped|repaired> n coords(3n) k sel(k) p2(3) u(3) sφ cφ sτ cτ
     enstranslate2 nc na coords(3·nc·na) vs(3·nc)
@@ -165,6 +167,10 @@ def run : String → P String
   | "subedit" => do
     let n ← nat; let cs ← rep vec n; let k ← nat; let sel ← rep nat k; let r ← mat; let t ← vec; done
     pure (showC (updateSel cs sel (fun p => (p.mulM r).add t)))
+  | "viewedit" => do
+    let n ← nat; let ids ← rep nat n; let cs ← rep vec n; let k ← nat; let h ← rep nat k
+    let r ← mat; let t ← vec; done
+    pure (showC (viewEdit ids cs h (fun p => (p.mulM r).add t)))
   | "centerat" => do
     let n ← nat; let cs ← rep vec n; let k ← nat; let core ← rep nat k; done
     if (gather cs core).length == 0 then pure "err:empty-core" else pure (showC (centerAt cs core))
